@@ -9,6 +9,8 @@
       context_restores_on_any_exit   exit kinds that reach deactivate() behave exactly like deactivate()
       activate_homog / activate_maps_documented_paths   after activate(e) in an [act_ok] state every documented path, in every
                                  import form, yields engine e's module
+      no_mixture                 for all event lists in [in_domain0] (any engines, any switching): imports, restoration
+                                 and configuration are as the property demands
       run_conforms               for all event lists in [in_domain] the model's observations are accepted by the Spec
                                  (no mixture, restoration, configuration, session) *)
 From SF Require Export C20.Activate.
@@ -849,6 +851,112 @@ Theorem run_conforms : forall evs,
 Proof.
   intros evs H. unfold in_domain in H. apply andb_true_iff in H as [H1 H2].
   exact (run_conforms_gen evs None sinit init_state Inv_init H1 H2).
+Qed.
+
+(** ** no_mixture: the same for ANY number of engines and any switching between them, for everything the property says
+    about imports, restoration and configuration (which session getOrCreate returns is judged by [run_conforms] only) *)
+Definition Inv0 (ss : sstate) (s : state) : Prop :=
+  attr_inv s /\ match active ss with
+                | None => realc s /\ config s = []
+                | Some (e, _) => homog e s
+                end.
+
+Lemma accept_activate_cfg : forall (e : string) c kv s,
+  kv_wf fa kv = true ->
+  (match c with Some k => cfg_has (store_config fa c kv s) (f_conn_key fa) k | None => true end
+   && forallb (fun p => cfg_has (store_config fa c kv s) (fst p) (snd p)) kv) = true.
+Proof.
+  intros e c kv s Hwf. apply andb_true_iff; split; [|now apply store_config_kv].
+  destruct c as [k|]; [|reflexivity]. unfold cfg_has. rewrite (store_config_conn (Some k) kv s k Hwf eq_refl).
+  apply Nat.eqb_refl.
+Qed.
+
+Lemma step_inv0 : forall ss s ev,
+  Inv0 ss s -> step_ok0 fa en ss s ev = true ->
+  accept0 fa en ss ev (fst (step s ev)) (config (snd (step s ev))) = true /\ Inv0 (snext ss ev) (snd (step s ev)).
+Proof.
+  intros ss s ev [Hai Hact] Hok.
+  assert (Hactiv : forall e c kv, act_ok fa e s && kv_wf fa kv = true ->
+            forall ev', (ev' = Activate e c kv \/ ev' = CtxEnter e c kv) ->
+            accept0 fa en ss ev' (fst (activate e c kv s)) (config (snd (activate e c kv s))) = true
+            /\ Inv0 (snext ss ev') (snd (activate e c kv s))).
+  { intros e c kv H ev' Hev. apply andb_true_iff in H as [Hk Hwf].
+    destruct (activate_homog e c kv s Hk Hai) as [Ho [Hh [Hai' [Hcfg _]]]].
+    split.
+    - assert (Ha : accept fa en ss ev' (fst (activate e c kv s)) (config (snd (activate e c kv s))) = true).
+      { unfold accept. destruct Hev; subst ev'; cbn [snext active]; rewrite Ho, Hcfg; cbn; apply (accept_activate_cfg e c kv s Hwf). }
+      destruct Hev; subst ev'; exact Ha.
+    - destruct Hev; subst ev'; (split; [exact Hai' | exact Hh]). }
+  assert (Hdeact : deact_raises fa en s = false -> forall ev', snext ss ev' = mkS None (hist ss) ->
+            (match ev' with Deactivate | CtxExit _ => True | _ => False end) ->
+            accept0 fa en ss ev' (fst (deactivate s)) (config (snd (deactivate s))) = true
+            /\ Inv0 (snext ss ev') (snd (deactivate s))).
+  { intros Hnr ev' Hsn Hev. destruct (deactivate_resets s) as [Hr [Hc _]].
+    assert (Ho : fst (deactivate s) = EOk) by (unfold Activate.deactivate; cbn; now rewrite Hnr).
+    specialize (Hc Ho). split.
+    - destruct ev'; try destruct Hev; unfold accept0, accept; rewrite Hsn; cbn [active]; rewrite Hc, Ho; reflexivity.
+    - rewrite Hsn. split; [now apply realc_attr_inv | split; assumption]. }
+  destruct ev as [e c kv | | e c kv | k | | fm p | e]; cbn [Activate.step step_ok0 step_ok] in *.
+  - apply (Hactiv e c kv Hok). left; reflexivity.
+  - apply negb_true_iff in Hok. apply (Hdeact Hok Deactivate); [reflexivity | exact I].
+  - apply (Hactiv e c kv Hok). right; reflexivity.
+  - apply andb_true_iff in Hok as [Hx Hnr]. rewrite Hx. apply negb_true_iff in Hnr.
+    apply (Hdeact Hnr (CtxExit k)); [reflexivity | exact I].
+  - (* getOrCreate: only the import of pyspark.sql and the session slot can change *)
+    unfold accept0, get_or_create. cbn [snext].
+    destruct (active ss) as [[e c]|] eqn:Hac.
+    + pose proof Hact as [Ht [Hq _]]. unfold Activate.import_sql. rewrite Hq.
+      assert (Hgen : forall x : eobs * state,
+                (x = (GRaise, s) \/ x = (GUnknown, s) \/ (exists o, x = (o, s)) \/ x = create_session fa en e s) ->
+                Inv0 ss (snd x)).
+      { intros x [H | [H | [[o H] | H]]]; subst x; cbn [snd]; unfold Inv0; rewrite Hac; try (split; [exact Hai | exact Hact]).
+        unfold create_session. destruct (is_bad _ && _); cbn [snd]; (split; [exact Hai | exact Hact]). }
+      split; [reflexivity|].
+      destruct (mem e (f_selfref fa)); [apply Hgen; left; reflexivity|].
+      destruct (sess s) as [|e0 c0|].
+      * apply Hgen. right; right; right; reflexivity.
+      * destruct (String.eqb e0 e || f_singleton_global fa).
+        -- apply Hgen. right; right; left. eexists; reflexivity.
+        -- apply Hgen. right; right; right; reflexivity.
+      * apply Hgen. right; left; reflexivity.
+    + destruct Hact as [Hr Hcfg].
+      destruct (import_sql_real s Hr) as [Ho [Hr' [Hf1 _]]].
+      destruct (import_sql s) as [o s1]; cbn [fst snd] in *. subst o.
+      assert (HI' : Inv0 ss s1) by (unfold Inv0; rewrite Hac; split; [now apply realc_attr_inv | split; [exact Hr' | congruence]]).
+      unfold Activate.base_view. destruct (installed en); cbn [fst snd]; (split; [rewrite Hf1, Hcfg; reflexivity | exact HI']).
+  - (* imports *)
+    unfold accept0, accept. cbn [snext].
+    destruct (active ss) as [[e c]|] eqn:Hac.
+    + destruct (homog_view e fm p s Hact Hai) as [Hd [Hh' [Hai' [Hk1 _]]]].
+      split.
+      * cbn. destruct (documented p) eqn:Hdoc; [|reflexivity].
+        destruct (Hd eq_refl) as [m [Ho Hb]]. rewrite Ho. exact Hb.
+      * unfold Inv0. rewrite Hac. split; assumption.
+    + destruct Hact as [Hr Hcfg].
+      destruct (real_view fm p s Hr) as [Ho [Hr' [Hf1 _]]].
+      split.
+      * rewrite Hf1, Hcfg. cbn. destruct (documented p); [|reflexivity]. rewrite Ho. apply accept_base_view_self.
+      * unfold Inv0. rewrite Hac. split; [now apply realc_attr_inv | split; [exact Hr' | congruence]].
+  - (* import sqlframe.<e>.functions *)
+    unfold load_functions. cbn [fst snd]. split.
+    + unfold accept0, accept. cbn [snext]. destruct (active ss) as [[e' c]|]; cbn; [reflexivity|].
+      destruct Hact as [_ Hc]. rewrite Hc. reflexivity.
+    + split; [apply attr_inv_more; exact Hai|]. cbn [snext]. destruct (active ss) as [[e' c]|]; exact Hact.
+Qed.
+
+Theorem no_mixture : forall evs,
+  in_domain0 fa en evs = true -> conforms0 fa en sinit evs (fst (run init_state evs)) = true.
+Proof.
+  intros evs. unfold in_domain0.
+  assert (Hgen : forall evs ss s, Inv0 ss s -> steps_ok0 fa en ss s evs = true ->
+                   conforms0 fa en ss evs (fst (run s evs)) = true).
+  { clear evs. induction evs as [|ev r IH]; intros ss s HI Hok; [reflexivity|].
+    cbn [Activate.run steps_ok0] in *. apply andb_true_iff in Hok as [Hok1 Hok2].
+    destruct (step_inv0 ss s ev HI Hok1) as [Hacc HI'].
+    destruct (step s ev) as [o s1] eqn:Hst. cbn [fst snd] in *.
+    specialize (IH _ _ HI' Hok2).
+    destruct (run s1 r) as [os s2]. cbn [fst conforms0] in *. now rewrite Hacc, IH. }
+  apply Hgen. split; [apply attr_inv_init | split; [apply realc_init | reflexivity]].
 Qed.
 
 (** ** deactivate_restores: after ANY history, from any starting state, a deactivate() that returns gives back exactly the
